@@ -305,9 +305,42 @@ fn parse_fixb<'a>(raw: RawCommand<'a>) -> Result<String, embedded_cli::service::
     FixB::parse(raw).map(|c| format!("{:?}", c))
 }
 
+/// short options *declared* with characters of every length (generated from a non-ASCII field identifier, or explicit):
+/// typed alone, in a cluster and with a value, each must reach its field
+fn declared_short_options(rep: &mut Report, args: &Args) {
+    use crate::sets::{parse_fixn, FixN};
+    let cases: [(&str, &str); 7] = [
+        ("n -ч", "число: true, über: false, 語: None, goth: false, plain: false"),
+        ("n -ü", "число: false, über: true, 語: None, goth: false, plain: false"),
+        ("n -語 7", "число: false, über: false, 語: Some(7), goth: false, plain: false"),
+        ("n -𐍈", "число: false, über: false, 語: None, goth: true, plain: false"),
+        ("n -p", "число: false, über: false, 語: None, goth: false, plain: true"),
+        ("n -чü𐍈p", "число: true, über: true, 語: None, goth: true, plain: true"),
+        ("n -𐍈ü -語 255 -ч", "число: true, über: true, 語: Some(255), goth: true, plain: false"),
+    ];
+    for (line, want) in cases {
+        let mut cmd = vec![0u8; 64].into_boxed_slice();
+        let mut hist = vec![0u8; 0].into_boxed_slice();
+        let sink = MonSink::new();
+        let mut rig: Rig<'_, FixN> = Rig::build(&mut cmd, &mut hist, 0, false, sink.clone(), RecProc::new(vec![], Some(parse_fixn))).expect("build");
+        feed(&mut rig, line.as_bytes());
+        feed(&mut rig, b"\r");
+        rep.evaluations += 1;
+        rep.count("c17.declared_short_option_lines");
+        let got = rig.proc.log.first().and_then(|r| r.parsed.clone());
+        let ok = matches!(&got, Some(Ok(d)) if d.contains(want));
+        if !ok {
+            report(rep, args, "C17", "through-cli", "declared-short-option", 0, 1, J::s(line), format!("line {:?} on a command whose short options are ч ü 語 (generated from the field names), 𐍈 (explicit) and p: parsed as {:?}, expected the fields {{ {} }}", line, got, want));
+        }
+    }
+}
+
 pub fn run(args: &Args, rep: &mut Report) {
     let chunks = (0x110000 / CHUNK) as u64;
     let thorough = args.thorough;
+    if args.shard == 0 && args.start == 0 {
+        declared_short_options(rep, args);
+    }
     run_cases(args, "C17", chunks, rep, &mut |c, rep| {
         if !mine(args, c) {
             rep.cases -= 1;
